@@ -98,6 +98,11 @@ def cases():
          "conns": [{"src": "Sb", "dst": "Sa", "sa": "p", "da": "i", "shift": 2, "init": True},
                    {"src": "Sb", "dst": "Sa", "sa": "p2", "da": "i2", "shift": 3, "init": True}], "until": 5},
         _tb(["Sa", "Sb"], 7))
+    # D29: an in-process simulator that returns the same (in place updated) output dictionary in every step, cache on
+    add("reused_output_dict", ["C03", "C04"],
+        {"sims": [{"sid": "Sa", "type": "time-based", "reuse": True}, {"sid": "Sb", "type": "time-based", "reuse": True}],
+         "transport": "local", "conns": [{"src": "Sa", "dst": "Sb", "sa": "p", "da": "i", "shift": 1, "init": True}], "until": 4},
+        _tb(["Sa", "Sb"]))
     # D9: time-based simulator returning no next step
     add("tb_returns_none", ["C13"],
         {"sims": [{"sid": "Sa", "type": "time-based"}, {"sid": "Sb", "type": "time-based"}],
